@@ -125,6 +125,22 @@ def state_view(o):
     return {'ddepth': o['ddepth'], 'level': o['cs_level'], 'cells': eff}
 
 
+def same_state(v1, v2):
+    """validation state equal; a cell value the domain could not express over the loop-head symbols ('?') is not compared"""
+    if v1['ddepth'] != v2['ddepth'] or v1['level'] != v2['level']:
+        return False
+    c1, c2 = v1['cells'], v2['cells']
+    if set(c1) != set(c2):
+        return False
+    for k in c1:
+        a, b = c1[k], c2[k]
+        if a[0] == '?' or b[0] == '?':
+            continue
+        if a != b:
+            return False
+    return True
+
+
 def run(rep, tier):
     with build.Scratch() as sc:
         cfgs = [('print.lp64', ('BINSON_PARSER_WITH_PRINT',), None)]
@@ -162,7 +178,7 @@ def run(rep, tier):
                                 for (c2, o2) in l2:
                                     if c2 == 'C':
                                         pairs_state += 1
-                                        if state_view(o1) != state_view(o2) and stepm.cofeasible(o1, o2):
+                                        if not same_state(state_view(o1), state_view(o2)) and stepm.cofeasible(o1, o2):
                                             bad_state.append((m1, o1, m2, o2))
                 ob = 'step:MODE-ERR:%s:0x%02x:%s:%s' % (kb[0], kb[1], 'd0' if kb[2] else 'd1', 'lookup' if kb[3] else 'plain')
                 if bad_err:
